@@ -17,6 +17,10 @@ func verifEvent(kind string, op *FsTxn, arg uint64) {
 	}
 }
 
+// VerifEvent lets the other packages of the file system report events of a
+// transaction (the directory layer reports name lookups and insertions).
+func VerifEvent(kind string, op *FsTxn, arg uint64) { verifEvent(kind, op, arg) }
+
 func verifBool(b bool) uint64 {
 	if b {
 		return 1
